@@ -100,7 +100,10 @@ def c17(c):
 
 
 def c19(c):
+    """C19 = stream broker half (this family) + map broker half (fam/mapbroker.py c19_map); counters are summed."""
     _run(c, 'C19')
+    from fam import mapbroker
+    mapbroker.c19_map(c)
 
 
 CHECKS = {'C17': c17, 'C19': c19}
@@ -113,5 +116,5 @@ META = {
                 note=_note, technique='TLA+ spec + TLC exhaustive; behaviour replay into MemoryBroker; trace validation of recorded executions'),
     'C19': dict(level='model_checking',
                 text='Same specification: suppression by idempotency key (with result TTL, ambiguous boundary second modelled as either outcome) and by version/version-epoch are actions of MemBroker.tla with action properties (suppressed changes nothing, exact version rule, unversioned publishes keep the stored version, idempotent repeat returns the original position); bound to the real broker by replay and trace validation, including what reaches the event handler.',
-                note=_note + ' Map-broker half of C19 is covered by the MapBroker spec when built.', technique='TLA+ spec + TLC exhaustive; behaviour replay; trace validation'),
+                note=_note + ' Map-broker half: MapBroker.tla with the idempotency result cache, its stale expiry items and the once-a-second cleaner (fam/mapbroker.py c19_map): 200 (quick) aimed behaviours replayed on the real MemoryMapBroker.', technique='TLA+ spec + TLC exhaustive; behaviour replay; trace validation'),
 }
